@@ -36,17 +36,20 @@ import threading
 import inspect
 import types
 import typing
+import weakref
 
 if TYPE_CHECKING:
     from semantiva.logger import Logger
 
 
-# A thread-safe registry mapping category names to component classes
-_COMPONENT_REGISTRY: Dict[str, List[Type[_SemantivaComponent]]] = {}
+# A thread-safe registry mapping category names to component classes. Classes are
+# held weakly: node, adapter and shorthand classes generated for one execution are
+# reclaimed with it instead of accumulating for the life of the process.
+_COMPONENT_REGISTRY: Dict[str, "weakref.WeakSet[Type[_SemantivaComponent]]"] = {}
 _REGISTRY_LOCK = threading.Lock()
 
 
-def get_component_registry() -> Dict[str, List[Type[_SemantivaComponent]]]:
+def get_component_registry() -> Dict[str, "weakref.WeakSet[Type[_SemantivaComponent]]"]:
     """
     Returns the global component registry, which maps component categories to their respective classes.
     """
@@ -75,7 +78,7 @@ class _SemantivaComponentMeta(ABCMeta):
                 return
             if cat:
                 with _REGISTRY_LOCK:
-                    _COMPONENT_REGISTRY.setdefault(cat, []).append(cls)
+                    _COMPONENT_REGISTRY.setdefault(cat, weakref.WeakSet()).add(cls)
 
 
 class _SemantivaComponent(metaclass=_SemantivaComponentMeta):
